@@ -117,33 +117,18 @@ def run(tier, seed):
         hcases.append({"id": bi, "calls": calls, "fresh_each": True})
         meta.append(vm)
     vlib.log("C12: %d base sources, %d parses" % (len(bases), sum(len(h["calls"]) for h in hcases)))
-    def execute(hcs, metas, bss, unbounded=False):
-        if unbounded:
-            hcs = [dict(h, calls=[dict(c, memo_cap=None) for c in h["calls"]]) for h in hcs]
-        results = vlib.run_cases(hcs, tag="c12", limit_ms=120000)
-        out = []
-        for h, res, vm in zip(hcs, results, metas):
-            rs = [tree.result_summary(x, want_skel="pruned") for x in res["results"]]
-            base = {"outcome": rs[0]["outcome"], "skel": rs[0]["skel"]}
-            vs = [dict(m, res={"outcome": r["outcome"], "skel": r["skel"]}) for m, r in zip(vm, rs[1:])]
-            out.append({"id": str(h["id"]), "base": base, "variants": vs})
-        return out
-    recs = execute(hcases, meta, bases)
-    nacc = sum(1 for r in recs if r["base"]["outcome"] == "ok")
+    results = vlib.run_cases(hcases, tag="c12", limit_ms=120000)
+    recs = []
+    nacc = 0
+    for h, res, vm, (tk, tops, note) in zip(hcases, results, meta, bases):
+        rs = [tree.result_summary(x, want_skel="pruned") for x in res["results"]]
+        base = {"outcome": rs[0]["outcome"], "skel": rs[0]["skel"]}
+        if base["outcome"] == "ok":
+            nacc += 1
+        vs = [dict(m, res={"outcome": r["outcome"], "skel": r["skel"]}) for m, r in zip(vm, rs[1:])]
+        recs.append({"id": str(h["id"]), "base": base, "variants": vs})
     bad, stats = vlib.tlc_validate("Trivia_Trace.tla", "Trivia_Trace.cfg", recs, tag="c12", shards=8)
     v.add_tv("Trivia_Trace", stats, len(recs))
-    if bad:
-        # cross-property rule (DESIGN.md 2.4): re-run once with an unbounded memo table; a discrepancy that disappears is a
-        # manifestation of the open C17 findings (D15), not of C12
-        idx = [int(rid) for rid in bad]
-        again = execute([hcases[i] for i in idx], [meta[i] for i in idx], None, unbounded=True)
-        bad2, stats2 = vlib.tlc_validate("Trivia_Trace.tla", "Trivia_Trace.cfg", again, tag="c12u", shards=2)
-        v.add_tv("Trivia_Trace[unbounded memo]", stats2, len(again))
-        for rid in list(bad):
-            if rid not in bad2:
-                v.known_finding("D15", "parser result at the production memo capacity differs from the unbounded-memo result (memoised guarded failure)",
-                                " ".join(bases[int(rid)][0])[:200], ["C17"])
-                del bad[rid]
     for rid, reasons in bad.items():
         tk, tops, note = bases[int(rid)]
         v.violation("%s base %r: %s" % (note, " ".join(tk)[:300], "; ".join(reasons)[:400]), {"tokens": tk, "note": note})
